@@ -265,7 +265,7 @@ pub fn run_parallel<T: Send>(threads: usize, n: usize, f: impl Fn(usize) -> T + 
 
 pub fn run(tier: Tier, seed: u64) -> i32 {
     let mut run = Run::new("C03", tier, seed, "exploration");
-    run.rule = "evaluation = one `go` sent to the real binary in a UCI session (history recorded at the client boundary: send events before writing, receive events stamped when read). Sessions: position commands from oracle-built histories (startpos/FEN + legal move lists, non-terminal), go parameters from a grid of clock values (absent, 0, negative, -10^18, 1, 99..3000; huge values for the side not to move; unknown tokens mixed in; planned slice <= 150 ms), chains of 1..8 (quick) / 1..30 (thorough) go without a new position. Checked per go: exactly one bestmove line before the next readyok boundary, long-algebraic spelling, legality in the oracle-tracked current position, promotion letter iff promoting. Schedules: plain binary 16 and 48 engines in parallel, plain binary pinned to one CPU per engine, hooked binary with seeded failpoint delays at six pre-emptible points of the two threads, whose internal event log is checked offline (FIFO/exactly-once between search_send and io_recv, printed move = last received, every sent move legal). Non-trivial = every go; distinct by (mode, position, go line, session)".into();
+    run.rule = "evaluation = one `go` sent to the real binary in a UCI session (history recorded at the client boundary: send events before writing, receive events stamped when read). Sessions: position commands from oracle-built histories (startpos/FEN + legal move lists, non-terminal), go parameters from a grid of clock values (absent, 0, negative, -10^18, 1, 99..3000; huge values for the side not to move; unknown tokens mixed in; planned slice <= 150 ms), chains of 1..8 (quick) / 1..30 (thorough) go without a new position. Checked per go: exactly one bestmove line before the next readyok boundary, long-algebraic spelling, legality in the oracle-tracked current position, promotion letter iff promoting. Schedules: plain binary 16 and 48 engines in parallel, plain binary pinned to one CPU per engine, hooked binary with seeded failpoint delays at six pre-emptible points of the two threads, whose internal event log is checked offline (FIFO/exactly-once between search_send and io_recv, printed move = last received, every sent move legal); pipelined sessions on the plain binary: the whole script (positions, go chains with plans <= 30 ms, isready) written without waiting for replies - in one write, line by line, or in pieces of 1..40 bytes that cut lines in two - and ended by nothing, quit or end of input; checked offline: the bestmove/readyok lines appear in exactly the order of the go/isready lines, every bestmove legal in the tracked position. Non-trivial = every go; distinct by (mode, position, go line, session)".into();
     run.assumptions = vec![
         "a missing answer is a violation only when the process has died or its search thread is gone (/proc/<pid>/task); a watchdog expiry with a live search thread is inconclusive".into(),
         "a 'panicked' line on stderr that does not cost the answer is counted and handed to C07, it is not a C03 refuter".into(),
@@ -313,6 +313,38 @@ pub fn run(tier: Tier, seed: u64) -> i32 {
             for s in sigs {
                 *all_sigs.entry(s).or_insert(0) += 1;
             }
+        }
+    }
+    // pipelined sessions: the whole script is written without waiting for replies, so every
+    // command but the first arrives while a search is running or while the I/O thread is busy
+    {
+        use super::pipe::{self, Chunking, End};
+        let n = tier.pick(48usize, 480);
+        let res = run_parallel(16, n, |i| {
+            let mut acc = Acc::new();
+            let mut rng = Rng::stream(seed, 0xC03_9000 + i as u64);
+            let steps = 2 + rng.below(5) as usize;
+            let lines = pipe::make_script(&mut rng, &roots, steps, 4, 30);
+            let end = *rng.pick(&[End::Open, End::Quit, End::Eof, End::Eof]);
+            let chunking = match rng.below(4) {
+                0 => Chunking::PerLine,
+                1 => Chunking::Pieces(1 + rng.below(40) as usize),
+                _ => Chunking::OneWrite,
+            };
+            if let Some(j) = pipe::observe_c03(&plain, &lines, end, chunking, seed ^ i as u64, &mut acc) {
+                if acc.distinct.insert(hash64(&format!("pipelined|{}|{}", i, lines.len()))) {
+                    acc.feature("mode_plain_pipelined");
+                    acc.feature(match end { End::Open => "pipelined_stream_left_open", End::Quit => "pipelined_then_quit", End::Eof => "pipelined_then_end_of_input" });
+                    acc.feature(match chunking { Chunking::OneWrite => "pipelined_one_write", Chunking::PerLine => "pipelined_write_per_line", Chunking::Pieces(_) => "pipelined_lines_cut_in_pieces" });
+                }
+                if i == 0 {
+                    acc.sample(json!({"pipelined_script_head": lines.iter().take(6).map(|l| truncate(l, 90)).collect::<Vec<_>>(), "answers": j.answers.iter().take(6).collect::<Vec<_>>()}));
+                }
+            }
+            acc
+        });
+        for a in res {
+            run.acc.merge(a, &[]);
         }
     }
     // a go that was still unanswered 10 s after its plan while the search thread kept running:
